@@ -441,6 +441,9 @@ func singleStore(al *ssa.Alloc) *ssa.Store {
 					found = r
 					n++
 				}
+				if r.Val == v {
+					n += 2 // the cell's address is stored somewhere (e.g. into a variadic pack handed to Scan): it may be written through it
+				}
 			case *ssa.MakeClosure:
 				fn := r.Fn.(*ssa.Function)
 				for i, b := range r.Bindings {
@@ -448,6 +451,8 @@ func singleStore(al *ssa.Alloc) *ssa.Store {
 						visit(fn.FreeVars[i])
 					}
 				}
+			case *ssa.MakeInterface, *ssa.ChangeType, *ssa.Convert, *ssa.Phi:
+				n += 2 // the address is boxed or merged (e.g. `scan(row, &x)` boxes it into an `any`): it may be written through it
 			case ssa.CallInstruction:
 				// address passed to a call: may be written, unless the callee provably only reads through it
 				for i, a := range r.Common().Args {
